@@ -1,5 +1,182 @@
-"""Extra drivers for the parser checks (trace validation of scripts not generated by TLC)."""
+"""Extra drivers for the parser checks: inputs TLC did not enumerate, judged by TLC (SieveTrace).
+
+ suite  : every script the repository's own parser/factory tests feed to Parser.parse (recorded by
+          running the suite with Parser.parse wrapped).  The suite's verdicts are axioms for the
+          specification: a pinned script the reference disagrees on is a machinery failure.
+ deep   : grammar-directed valid scripts from `tlc -simulate` (SieveEnum!SimSpec), plus seeded
+          single-token edits of them (delete, duplicate, swap, replace by a token of another class).
+ bytes  : byte-level mutants of rendered valid scripts (C02 totality, C18 lexical positions).
+"""
+import base64
+import json
+import os
+import random
+import subprocess
+import sys
+
+from . import psim, ptrace, render as R
+
+VERIF = os.path.dirname(os.path.dirname(os.path.abspath(__file__)))
+POOL = [("semi", ""), ("lc", ""), ("rc", ""), ("lp", ""), ("rp", ""), ("comma", ""), ("lb", ""), ("rb", ""),
+        ("str", "x"), ("num", "3"), ("tag", ":bogus"), ("tag", ":is"), ("id", "bogus"), ("id", "stop"),
+        ("id", "true"), ("id", "else"), ("id", "fileinto"), ("ml", "m")]
+LAYS = ["space", "pretty", "crlf", "lines", "compact", "mixed", "mlcomment", "upper"]
+
+
+def record_suite():
+    out = os.path.join(VERIF, "build", "suite_%d.json" % os.getpid())
+    os.makedirs(os.path.dirname(out), exist_ok=True)
+    env = dict(os.environ)
+    env.pop("PYTEST_CURRENT_TEST", None)
+    p = subprocess.run([sys.executable, "-W", "ignore", "-m", "harness.record_suite", out], cwd=VERIF,
+                       stdout=subprocess.PIPE, stderr=subprocess.STDOUT, env=env, timeout=600)
+    try:
+        d = json.load(open(out))
+    finally:
+        if os.path.exists(out):
+            os.unlink(out)
+    return d
+
+
+def mutants(tokens, rng, k):
+    out = []
+    n = len(tokens)
+    for _ in range(k):
+        i = rng.randrange(n)
+        kind = rng.choice(["del", "dup", "swap", "repl", "ins"])
+        t = list(tokens)
+        if kind == "del":
+            del t[i]
+        elif kind == "dup":
+            t.insert(i, t[i])
+        elif kind == "swap" and i + 1 < n:
+            t[i], t[i + 1] = t[i + 1], t[i]
+        elif kind == "repl":
+            c = rng.choice([x for x in POOL if x[0] != t[i][0]])
+            t[i] = c
+        else:
+            t.insert(i, rng.choice(POOL))
+        out.append(t)
+    return out
+
+
+def byte_mutants(data, rng, k):
+    out = []
+    hostile = [b"\x00", b"\xff", b"\xc3", b"\xa9", b"\xc3\xa9", b'"', b"\\", b"/*", b"text:\n", b"#", b"@", b"%",
+               b"\r", b"\n", b":", b"{", b"(", b"[", b".", b"\x0b", b"\xe2\x98\x83"]
+    for _ in range(k):
+        b = bytearray(data)
+        kind = rng.choice(["flip", "ins", "del", "trunc", "ins2"])
+        i = rng.randrange(len(b) + 1)
+        if kind == "flip" and i < len(b):
+            b[i] ^= 1 << rng.randrange(8)
+        elif kind == "ins":
+            b[i:i] = rng.choice(hostile)
+        elif kind == "ins2":
+            b[i:i] = rng.choice(hostile)
+            j = rng.randrange(len(b) + 1)
+            b[j:j] = rng.choice(hostile)
+        elif kind == "del" and i < len(b):
+            del b[i:i + rng.randrange(1, 4)]
+        else:
+            del b[i:]
+        out.append(bytes(b))
+    return out
+
+
+def classify(recs, prop, devs, source):
+    known, viols = {}, []
+    for r in recs:
+        if prop not in r["failed"]:
+            continue
+        r = dict(r)
+        r["source"] = source
+        ex = r["expl"]
+        if ex and all(d in devs for d in ex):
+            for d in ex:
+                known.setdefault(d, []).append(r)
+        else:
+            viols.append((source, r))
+    return known, viols
+
+
+def merge(out, known, viols):
+    for d, rs in known.items():
+        out["known"].setdefault(d, []).extend(rs)
+    out["viols"].extend(viols)
+
+
+def driver(prop, tier, seed, devs):
+    rng = random.Random(seed * 7919 + 13)
+    out = {"name": "trace_validation", "states": 0, "transitions": 0, "parses": 0, "known": {}, "viols": [],
+           "machinery": [], "coverage": {}, "samples": []}
+    # ---- suite scripts: axioms + conformance
+    d = record_suite()
+    scripts, pins = [], []
+    for e in d["log"]:
+        if "AdditionalCommands" in e["test"]:
+            continue            # scripts using commands registered by that test class (C20's domain)
+        scripts.append(base64.b64decode(e["text"]))
+        pins.append(e["result"])
+    if d["rc"] != 0:
+        out["coverage"]["suite_note"] = "repository tests did not all pass while recording (rc=%s)" % d["rc"]
+    recs, cnt, st = ptrace.judge_scripts(scripts, devs)
+    if st["error"]:
+        out["machinery"].append("SieveTrace on suite scripts: %s" % st["error"])
+    # pins as axioms: only when the suite itself passed (the code agrees with the pin)
+    if d["rc"] == 0:
+        for r in recs:
+            if "C01" in r["failed"] and not (r["expl"] and all(x in devs for x in r["expl"])):
+                out["machinery"].append("pinned verdict contradicts the reference (specification bug?): %r %s"
+                                        % (r["text"][:80], r["failed"]["C01"]))
+    k, v = classify(recs, prop, devs, "suite")
+    merge(out, k, v)
+    out["states"] += st["distinct"]
+    out["transitions"] += st["states"]
+    out["parses"] += cnt["parses"]
+    out["coverage"]["suite_scripts"] = dict(cnt)
+    # ---- deep scripts from TLC simulation, and their mutants
+    nsim = 25 if tier == "quick" else 400
+    valid = []
+    simstates = 0
+    for which in ("simnest", "sim"):
+        got, res = psim.simulate(which, nsim, 45 if which == "simnest" else 30, seed + 1)
+        if res["error"] or res["violated"]:
+            out["machinery"].append("simulation %s: %s %s" % (which, res["error"], res["violated"]))
+        simstates += res["states"]
+        valid.extend(t for t, o in got if len(t) >= 12)
+    rng.shuffle(valid)
+    nvalid = 500 if tier == "quick" else 12000
+    nmut = 6 if tier == "quick" else 10
+    valid = valid[:nvalid]
+    batch = []
+    for toks in valid:
+        lay = rng.choice(LAYS)
+        batch.append(R.render(toks, lay)[0])
+        if prop != "C02":
+            for m in mutants(toks, rng, nmut):
+                batch.append(R.render(m, rng.choice(LAYS))[0])
+    if prop in ("C02", "C18"):
+        nb = 4 if tier == "quick" else 12
+        for toks in valid[: (400 if tier == "quick" else 8000)]:
+            data = R.render(toks, rng.choice(LAYS))[0]
+            batch.extend(byte_mutants(data, rng, nb))
+    batch = list(dict.fromkeys(batch))
+    recs, cnt, st = ptrace.judge_scripts(batch, devs)
+    if st["error"]:
+        out["machinery"].append("SieveTrace on generated scripts: %s" % st["error"])
+    if cnt["missing"]:
+        out["machinery"].append("SieveTrace returned no verdict for %d traces" % cnt["missing"])
+    k, v = classify(recs, prop, devs, "generated")
+    merge(out, k, v)
+    out["states"] += st["distinct"] + simstates
+    out["transitions"] += st["states"] + simstates
+    out["parses"] += cnt["parses"]
+    out["coverage"]["generated_scripts"] = dict(cnt, valid_from_simulation=len(valid), simulation_states=simstates)
+    if batch:
+        out["samples"].append({"source": "generated", "script": batch[-1].decode("utf-8", "replace")[-160:]})
+    return out
 
 
 def drivers(prop):
-    return []
+    return [driver]
